@@ -99,10 +99,7 @@ Theorem C02_tables : (forall v0 v1 v2 v3,
   /\ closed_table tet_index_table = true /\ closed_table hex_index_table = true
   /\ forallb (fun v => Nat.eqb (vertex_degree hex_index_table v) 3) [0; 1; 2; 3; 4; 5; 6; 7] = true
   /\ (forall C, (length C = 4%nat \/ length C = 8%nat) -> gcf_cell_faces C = Some (cfc_cell_faces C)).
-Proof.
-  exact (conj tet_table_natural (conj hex_table_natural (conj (proj1 tet_table_closed)
-          (conj (proj1 hex_table_closed) (conj (proj1 (proj2 hex_table_closed)) tables_agree))))).
-Qed.
+Proof. exact tables_thm. Qed.
 Print Assumptions C02_tables.
 
 Theorem C02_cell_faces : forall c r r', cf_elem r = [] -> cf_adj r = [] -> Forall cell_ok (cells r) -> prepare c r = Ok r' ->
@@ -197,3 +194,40 @@ Theorem C02_face_corners_regenerated : forall c r r', prepare c r = Ok r' ->
   combine (fc_elem r') (fc_adj r') = incidences (faces r') /\ zlen (fc_elem r') = sum_len (faces r').
 Proof. exact face_corners_regenerated. Qed.
 Print Assumptions C02_face_corners_regenerated.
+
+(* 3-D vertices however the raw data came: 2-D points are padded with 0, 3-D points are kept; a point of any other width is
+   left as it is (only from_arrays pads 1-D points and rejects wider ones) *)
+Theorem C02_vertices_3d : forall c r r', prepare c r = Ok r' ->
+  vertices r' = map prep_vertex (vertices r)
+  /\ (forall x y, prep_vertex [x; y] = [x; y; 0])
+  /\ (forall v, zlen v <> 2 -> prep_vertex v = v)
+  /\ (Forall (fun v => zlen v = 2 \/ zlen v = 3) (vertices r) -> Forall (fun v => length v = 3%nat) (vertices r')).
+Proof. exact vertices_3d_thm. Qed.
+Print Assumptions C02_vertices_3d.
+
+(* "every edge exactly once" holds under the NAMED GUARD that the surviving declared edges are pairwise distinct ... *)
+Theorem C02_edges_nodup_if_declared_distinct : forall c r r', prepare c r = Ok r' ->
+  NoDup (filter (evalid (zlen (vertices r))) (map kedge (edges r))) -> NoDup (edges r').
+Proof. exact edges_nodup_if_declared_distinct. Qed.
+Print Assumptions C02_edges_nodup_if_declared_distinct.
+
+Theorem C02_side_once_if_declared_distinct : forall c r r', prepare c r = Ok r' -> snd c = true ->
+  NoDup (filter (evalid (zlen (vertices r))) (map kedge (edges r))) ->
+  forall f s, In f (faces r') -> In s (face_sides f) -> evalid (zlen (vertices r)) s = true ->
+              count_occ edge_dec (edges r') s = 1%nat.
+Proof. exact side_once_if_declared_distinct. Qed.
+Print Assumptions C02_side_once_if_declared_distinct.
+
+(* ... and is false without it: an edge declared twice is kept twice (known finding edge-list/duplicate-declared) *)
+Theorem C02_edges_nodup_refuted : exists c r r', prepare c r = Ok r' /\ ~ NoDup (edges r').
+Proof. exact edges_nodup_refuted. Qed.
+Print Assumptions C02_edges_nodup_refuted.
+
+(* corner containers pre-filled by the importers (face corners / cell corners of the faces / cells they read) *)
+Theorem C02_corners_prefilled : forall c r r', prepare c r = Ok r' -> fc_incoming_ok r -> cc_incoming_ok r ->
+  fc_elem r' = concat (faces r') /\ fc_adj r' = owners (faces r')
+  /\ combine (fc_elem r') (fc_adj r') = incidences (faces r')
+  /\ cc_elem r' = concat (cells r') /\ cc_adj r' = owners (cells r')
+  /\ combine (cc_elem r') (cc_adj r') = incidences (cells r').
+Proof. exact corners_prefilled_thm. Qed.
+Print Assumptions C02_corners_prefilled.
